@@ -331,6 +331,34 @@ func runBounds(c *Ctx) {
 			}
 		}
 	}
+	// a result list padded with a nil error up to the declared number of results is padded only while it is SHORTER than
+	// that number (`len(result) <= fn.NumOut()` pads a complete list: reflect.MakeFunc panics on the extra value)
+	for _, f := range p.Funcs {
+		if !p.InTarget(f) {
+			continue
+		}
+		nPad := 0
+		for _, ci := range core.Calls(f, "builtin.append") {
+			cl, ok := ci.(*ssa.Call)
+			if !ok || core.TypeStr(cl.Type()) != "[]reflect.Value" {
+				continue
+			}
+			for _, l := range core.Lits(core.Guards(cl.Block())) {
+				l = core.PositiveOrder(l)
+				if l.Kind != "cmp" || !l.Pol {
+					continue
+				}
+				lenC, okL := core.Strip(l.X).(*ssa.Call)
+				numC, okN := core.Strip(l.Y).(*ssa.Call)
+				if !okL || !okN || core.CalleeName(lenC.Common()) != "builtin.len" || core.CalleeName(numC.Common()) != "(reflect.Type).NumOut" {
+					continue
+				}
+				nPad++
+				c.R.Add("BOUNDS", fmt.Sprintf("result-count|%s#%d", core.FuncName(f), nPad), core.FuncName(f), p.InstrPos(cl), l.Op == token.LSS,
+					"a result list is padded only while it is strictly shorter than the declared number of results", ternary(l.Op == token.LSS, "len < NumOut()", "padded under len "+l.Op.String()+" NumOut()"))
+			}
+		}
+	}
 	c.roleOfFn = map[*ssa.Function]string{}
 	for _, r := range []string{"convertMulti", "executor", "resolver", "planner", "graphBuilder", "inputBuilder", "funcBuilder", "structWalker", "outputMapper", "resultAdapter"} {
 		if f := p.MustRole(r); f != nil {
